@@ -16,6 +16,7 @@ from pbsym.ctx import B
 from pbsym.models import s3env
 
 PROPERTY = 'C16'
+TECHNIQUE = 'CrossHair/z3 symbolic execution of the S3 window lookup on an integer-seconds datetime model; z3 + cvc5 integer-arithmetic query generated from the day-enumeration AST'
 FUNCTIONS = ['playback/tape_cassettes/s3/s3_tape_cassette.py::S3TapeCassette._get_id_prefixes',
              'playback/tape_cassettes/s3/s3_tape_cassette.py::S3TapeCassette.create_id_prefix_iterators',
              'playback/tape_cassettes/s3/s3_tape_cassette.py::S3TapeCassette._get_days_iterators',
